@@ -23,7 +23,7 @@ theorem Stat.sub {K : SCtx} {k : Ctx} {sub : Bool} (h : Stat K k sub)
     (hne : K.e = true → K.ign = false ∧ K.unk = false) :
     Stat (subK K.e) { k with depth := 0 } true :=
   ⟨h.kt, fun h' => by simp [subK] at h', fun he _ _ => h.knign he (hne he).1 (hne he).2,
-    fun h' => by simp [subK] at h', rfl, fun h' => by simp [subK] at h'⟩
+    fun h' => by simp [subK] at h', Nat.zero_le _, fun h' => by simp [subK] at h'⟩
 
 theorem Dyn.sub {K : SCtx} {k : Ctx} {sub : Bool} {s : St} (hst : Stat K k sub) (h : Dyn K k sub s)
     (hne : K.e = true → K.ign = false ∧ K.unk = false) (out : Str) :
@@ -75,7 +75,7 @@ theorem sim_subrun {n : Nat} (hS : SimS n) {K : SCtx} {k : Ctx} {sub : Bool} {s 
       obtain ⟨_, _, _, _, _, hfn, _⟩ := hp
       simp [subK] at hfn
     | exit =>
-      obtain ⟨_, hr', hs', ho, ht, hcs, _, _⟩ := hp
+      obtain ⟨_, hr', hs', ho, ht, hcs, _, _, _⟩ := hp
       have htn : e1.trapExit = .nil := by rw [ht]; exact hcs rfl
       simp only [htn, sem_trap_nil hn1, SubRel]
       exact ⟨trivial, hs', ho, hr'⟩
@@ -196,7 +196,7 @@ theorem sim_call {n : Nat} (hS : SimS n) {K : SCtx} {k : Ctx} {sub : Bool} {s : 
     simp only [h2, ↓reduceIte]; rfl
   rw [hrun, hsem]
   have hstf : Stat (fnK K.e) { k with inFunc := true, depth := 0 } sub :=
-    ⟨hst.kt, fun h => by simp [fnK] at h, fun _ _ h => by simp [fnK] at h, fun _ => rfl, rfl,
+    ⟨hst.kt, fun h => by simp [fnK] at h, fun _ _ h => by simp [fnK] at h, fun _ => rfl, Nat.zero_le _,
       fun h => by simp [fnK] at h⟩
   have hdf : Dyn (fnK K.e) { k with inFunc := true, depth := 0 } sub
       { s with lastExpandExit := {}, inFunc := true } :=
@@ -245,7 +245,7 @@ theorem sim_call {n : Nat} (hS : SimS n) {K : SCtx} {k : Ctx} {sub : Bool} {s : 
       · exact Or.inl ⟨rfl, hd', hf'', ⟨rfl, by simpa using hxx⟩, h5, fun h => h.elim,
           fun h => by simp [isChecked] at h⟩
     | exit =>
-      obtain ⟨hx', hr', hs', ho, ht, hcs, hht, hce⟩ := hpo
-      exact Or.inl ⟨hx', rfl, hs', ho, ht, hcs, hht, hce⟩
+      obtain ⟨hx', hr', hs', ho, ht, hcs, hht, hce, hnp'⟩ := hpo
+      exact Or.inl ⟨hx', rfl, hs', ho, ht, hcs, hht, hce, hnp'⟩
 
 end ShVerif.C26
